@@ -50,6 +50,7 @@ type World struct {
 	Warn          []string
 	Guards        map[string]*guardInfo // "<struct name>.<field index>" -> guard
 	PointeeGuards map[string]*pointeeGuard
+	holders       map[string]types.Type // ghost-field holder structs of named non-struct types (e.g. url.Values)
 }
 
 type pointeeGuard struct {
@@ -163,6 +164,10 @@ func (w *World) initBaseDecls() {
 	t := Var("t", SStr)
 	r.AddAxiom("strlen.nonneg", []string{"strlen"}, Forall([]*Term{s}, And(Ge(r.Apply("strlen", s), IntT(0)), Le(r.Apply("strlen", s), BigT(new(big.Int).SetUint64(1<<56)))), []*Term{r.Apply("strlen", s)}))
 	r.AddAxiom("strlen.empty", []string{"strlen"}, Forall([]*Term{s}, Eq(Eq(r.Apply("strlen", s), IntT(0)), Eq(s, r.StrLit(""))), []*Term{r.Apply("strlen", s)}))
+	u := Var("u", SStr)
+	r.AddAxiom("strcat.assoc", []string{"strcat"}, Forall([]*Term{s, t, u},
+		Eq(r.Apply("strcat", r.Apply("strcat", s, t), u), r.Apply("strcat", s, r.Apply("strcat", t, u))),
+		[]*Term{r.Apply("strcat", r.Apply("strcat", s, t), u)}))
 	cat := r.Apply("strcat", s, t)
 	r.AddAxiom("strcat.len", []string{"strcat"}, Forall([]*Term{s, t}, Eq(r.Apply("strlen", cat), Add(r.Apply("strlen", s), r.Apply("strlen", t))), []*Term{cat}))
 }
@@ -263,6 +268,37 @@ func (w *World) structSort(t types.Type) string {
 	delete(w.Reg.dts, dtName)
 	w.Reg.DeclareDatatype(dt)
 	return sym(dtName)
+}
+
+// HolderType: ghost fields declared on a named non-struct type T (a map such as url.Values) live in a synthetic
+// struct "T$ghost" stored in the heap at the reference that is the T value. Returns nil if T has none.
+func (w *World) HolderType(t types.Type) types.Type {
+	n, ok := types.Unalias(t).(*types.Named)
+	if !ok {
+		return nil
+	}
+	if _, isStruct := n.Underlying().(*types.Struct); isStruct {
+		return nil
+	}
+	name := w.structName(n)
+	gs := w.ghost[name]
+	if len(gs) == 0 {
+		return nil
+	}
+	if w.holders == nil {
+		w.holders = map[string]types.Type{}
+	}
+	if h, ok := w.holders[name]; ok {
+		return h
+	}
+	var fields []*types.Var
+	for _, g := range gs {
+		fields = append(fields, types.NewField(token.NoPos, n.Obj().Pkg(), g.Name, g.Type, false))
+	}
+	tn := types.NewTypeName(token.NoPos, n.Obj().Pkg(), n.Obj().Name()+"$ghost", nil)
+	h := types.NewNamed(tn, types.NewStruct(fields, nil), nil)
+	w.holders[name] = h
+	return h
 }
 
 // StructFields lists selector names / go types (including ghost fields) of a struct type.
@@ -420,6 +456,48 @@ func (w *World) mapValSort(m *types.Map) string {
 	r.AddAxiom(name+".empty", []string{"empty:" + name}, Forall([]*Term{kk},
 		Not(r.Apply("has:"+name, r.Apply("empty:"+name), kk)), []*Term{r.Apply("has:"+name, r.Apply("empty:"+name), kk)}))
 	return q
+}
+
+// MapHas / MapGet fold lookups over put(...) chains with syntactically equal or distinct (literal) keys.
+func (w *World) keysDistinct(a, b *Term) bool {
+	if a.K == KVar && b.K == KVar && w.Reg.strLits[a.Name] != nil && w.Reg.strLits[b.Name] != nil {
+		return a != b
+	}
+	if a.IsLit() && b.IsLit() {
+		return a.I.Cmp(b.I) != 0
+	}
+	return false
+}
+
+func (w *World) MapHas(mv string, content, k *Term) *Term {
+	for content.K == KApp && content.Name == "put:"+mv {
+		if content.Args[1] == k {
+			return TTrue
+		}
+		if w.keysDistinct(content.Args[1], k) {
+			content = content.Args[0]
+			continue
+		}
+		break
+	}
+	if content.K == KApp && content.Name == "empty:"+mv {
+		return TFalse
+	}
+	return w.Reg.Apply("has:"+mv, content, k)
+}
+
+func (w *World) MapGet(mv string, content, k *Term) *Term {
+	for content.K == KApp && content.Name == "put:"+mv {
+		if content.Args[1] == k {
+			return content.Args[2]
+		}
+		if w.keysDistinct(content.Args[1], k) {
+			content = content.Args[0]
+			continue
+		}
+		break
+	}
+	return w.Reg.Apply("get:"+mv, content, k)
 }
 
 // ---- interfaces ----
